@@ -187,7 +187,7 @@ Proof.
     with (padded_txt (a, f, b) ++ [COMMA] ++ join [COMMA] (padded_txt q :: map padded_txt fs)).
   rewrite !all_ws_app. cbn [all_ws forallb app]. replace (is_ws COMMA) with false by reflexivity.
   rewrite andb_false_r. cbn [negb andb].
-  cbn [padded_txt]. cbn [forallb] in Hp. rewrite !andb_true_iff in Hp. destruct Hp as [[[Ha Hf] Hb] _].
+  cbn [padded_txt]. cbn [forallb padded_ok] in Hp. rewrite !andb_true_iff in Hp. destruct Hp as [[[Ha Hf] Hb] _].
   rewrite app_assoc, <- app_assoc.
   destruct (a ++ f) as [|c r] eqn:E.
   - cbn [app]. destruct b as [|c b]; cbn; [reflexivity|].
@@ -227,7 +227,7 @@ Proof.
     rewrite parse_render_row; [reflexivity| |exact Hp]. destruct fs; [discriminate|discriminate].
   - exists (HASH :: b), e. split; [reflexivity|]. split.
     + cbn. exact H.
-    + unfold keep_line. cbn. rewrite andb_false_r. reflexivity.
+    + unfold keep_line. cbn. rewrite ?andb_false_r. reflexivity.
   - exists w, e. split; [reflexivity|]. split.
     + apply plain_no_nl, blanks_plain, H.
     + unfold keep_line. rewrite (blanks_all_ws w H). reflexivity.
@@ -237,6 +237,9 @@ Lemma table_of_lines_cons ln ls :
   table_of_lines (ln :: ls) = (if keep_line ln then [parse_line ln] else []) ++ table_of_lines ls.
 Proof. unfold table_of_lines. cbn. destruct (keep_line ln); reflexivity. Qed.
 
+Lemma render_items_cons i is : render_items (i :: is) = render_item i ++ render_items is.
+Proof. reflexivity. Qed.
+
 (* THE LEXICAL THEOREM: whatever the layout (blanks around every field, comment and blank lines
    anywhere, \n or \r\n per line), the lexer returns exactly the fields of the data rows, in order *)
 Theorem table_of_rendering is : forallb item_ok is = true ->
@@ -245,7 +248,7 @@ Proof.
   unfold table_of_text. induction is as [|i is IH]; [reflexivity|].
   cbn [forallb]. rewrite andb_true_iff. intros [Hi Hr].
   destruct (item_line i Hi) as [ln [e [E [N K]]]].
-  unfold render_items. cbn [map concat]. fold (render_items is). rewrite E, <- app_assoc.
+  rewrite render_items_cons, E, <- app_assoc.
   rewrite lines_app_eol by exact N. rewrite table_of_lines_cons, K, (IH Hr). reflexivity.
 Qed.
 
@@ -255,29 +258,25 @@ Lemma first_line_rendering i is : item_ok i = true ->
   hd [] (lines (render_items (i :: is))) = ln.
 Proof.
   intro Hi. destruct (item_line i Hi) as [ln [e [E [N _]]]]. exists ln, e. split; [exact E|]. split; [exact N|].
-  unfold render_items. cbn [map concat]. fold (render_items is). rewrite E, <- app_assoc, lines_app_eol by exact N.
-  reflexivity.
+  rewrite render_items_cons, E, <- app_assoc.
+  rewrite lines_app_eol by exact N. reflexivity.
 Qed.
 
 (* ------------------------------------------------------------------ decimal integers *)
 Lemma digits_val_pos (d : Decimal.uint) (acc : positive) :
   digits_val (Npos acc) (txt_of_uint d) = Some (Npos (Pos.of_uint_acc d acc)).
 Proof.
-  revert acc; induction d; intro acc; cbn [txt_of_uint digits_val Pos.of_uint_acc];
-    try reflexivity;
-    match goal with |- context [digit_val ?c] => change (digit_val c) with (Some (N_of_ascii c - 48)%N) end;
-    cbn [N_of_ascii]; match goal with |- digits_val ?n _ = _ =>
-      let n' := eval cbn in n in change n with n' end; rewrite ?IHd; try reflexivity.
+  revert acc; induction d; intro acc; cbn [txt_of_uint digits_val Pos.of_uint_acc]; [reflexivity|..];
+  match goal with |- context [digit_val ?c] => let v := eval vm_compute in (digit_val c) in change (digit_val c) with v end;
+  cbv iota beta; rewrite <- IHd; f_equal; lia.
 Qed.
 
 Lemma digits_val_zero (d : Decimal.uint) :
   digits_val 0 (txt_of_uint d) = Some (Pos.of_uint d).
 Proof.
-  induction d; cbn [txt_of_uint digits_val Pos.of_uint]; try reflexivity;
-    match goal with |- context [digit_val ?c] => change (digit_val c) with (Some (N_of_ascii c - 48)%N) end;
-    cbn [N_of_ascii]; match goal with |- digits_val ?n _ = _ =>
-      let n' := eval cbn in n in change n with n' end;
-    try exact IHd; apply digits_val_pos.
+  induction d; cbn [txt_of_uint digits_val Pos.of_uint]; [reflexivity|..];
+  match goal with |- context [digit_val ?c] => let v := eval vm_compute in (digit_val c) in change (digit_val c) with v end;
+  cbv iota beta; [exact IHd|..]; rewrite <- digits_val_pos; f_equal.
 Qed.
 
 Lemma to_uint_nonnil n : N.to_uint n <> Decimal.Nil.
@@ -311,24 +310,22 @@ Proof.
 Qed.
 
 (* int(str(z)) = z *)
+Lemma parse_int_digit_head c r : digit_val c <> None ->
+  parse_int (c :: r) = option_map Z.of_N (parse_nat (c :: r)).
+Proof.
+  intro D. unfold parse_int.
+  destruct (Ascii.eqb_spec c "-") as [->|_]; [exfalso; apply D; reflexivity|].
+  destruct (Ascii.eqb_spec c "+") as [->|_]; [exfalso; apply D; reflexivity|]. reflexivity.
+Qed.
+
 Theorem parse_show_int z : parse_int (show_int z) = Some z.
 Proof.
   destruct z as [|p|p].
   - reflexivity.
   - unfold show_int. change (Z.to_N (Z.pos p)) with (Npos p).
     destruct (show_N_head_digit (Npos p)) as [c [r [E D]]].
-    unfold parse_int. rewrite E.
-    assert (c <> "-" /\ c <> "+") as [N1 N2].
-    { split; intro; subst c; apply D; reflexivity. }
-    destruct (Ascii.eqb_spec c "-"); [contradiction|]. destruct (Ascii.eqb_spec c "+"); [contradiction|].
-    replace (match c with
-             | "-" => fun r0 => option_map (fun n => (- Z.of_N n)%Z) (parse_nat r0)
-             | "+" => fun r0 => option_map Z.of_N (parse_nat r0)
-             | _ => fun _ => option_map Z.of_N (parse_nat (c :: r))
-             end r) with (option_map Z.of_N (parse_nat (c :: r))).
-    + rewrite <- E, parse_show_N. reflexivity.
-    + clear -N1 N2. destruct c as [[] [] [] [] [] [] [] []]; try reflexivity; congruence.
-  - unfold show_int, parse_int. rewrite parse_show_N. reflexivity.
+    rewrite E, parse_int_digit_head by exact D. rewrite <- E, parse_show_N. reflexivity.
+  - unfold show_int, parse_int. rewrite Ascii.eqb_refl, parse_show_N. reflexivity.
 Qed.
 
 (* leading zeros, as a conformant file may write them *)
@@ -357,17 +354,9 @@ Proof.
       { destruct k; cbn in E2.
         - rewrite E in E2. injection E2 as <- _. exact D.
         - injection E2 as <- _. discriminate. }
-      unfold parse_int.
-      replace (match c' with
-             | "-" => fun r0 => option_map (fun n => (- Z.of_N n)%Z) (parse_nat r0)
-             | "+" => fun r0 => option_map Z.of_N (parse_nat r0)
-             | _ => fun _ => option_map Z.of_N (parse_nat (c' :: r'))
-             end r') with (option_map Z.of_N (parse_nat (c' :: r'))).
-      * rewrite H. reflexivity.
-      * assert (c' <> "-" /\ c' <> "+") as [N1 N2] by (split; intro; subst c'; apply Dc; reflexivity).
-        clear -N1 N2. destruct c' as [[] [] [] [] [] [] [] []]; try reflexivity; congruence.
-  - cbn. rewrite H. reflexivity.
-  - cbn. rewrite H. reflexivity.
+      rewrite parse_int_digit_head by exact Dc. rewrite H. reflexivity.
+  - unfold parse_int. cbn [Ascii.eqb Bool.eqb]. cbn. rewrite H. reflexivity.
+  - unfold parse_int. cbn. rewrite H. reflexivity.
 Qed.
 
 (* str(z) is a token: digits and '-' only *)
@@ -390,7 +379,7 @@ Qed.
 
 Lemma show_int_nonempty z : show_int z <> [].
 Proof.
-  destruct z; cbn; try discriminate.
+  destruct z; cbn [show_int]; try discriminate.
   unfold show_N. apply txt_of_uint_nonnil, to_uint_nonnil.
 Qed.
 
